@@ -35,7 +35,7 @@ type Trap struct {
 	Name    string
 	Role    string // "" = any goroutine that is not a registered client
 	Point   string
-	Nth     int // 1-based hit number for that (role, point)
+	Nth     int    // 1-based hit number for that (role, point)
 	Str     string // when set, only hits whose string argument equals it count
 	hits    int
 	parked  chan struct{} // closed when a goroutine is parked
